@@ -211,6 +211,15 @@ func driveLongLived(args []string) error {
 		}
 		handles = append(handles, mkHandle(kind, []byte(dt), []interface{}{int32(5), float64(2), int64(8), float32(1.5), uint32(7), "x"}))
 	}
+	// anyOf whose alternatives fail with equal match counts: which one explains the failure does not depend on earlier values
+	for _, st := range []string{`{"anyOf":[{"type":"string"},{"type":"integer"},{"type":"array"}]}`, `{"allOf":[{"anyOf":[{"type":"string","maxLength":1},{"type":"integer","maximum":3},{"type":"boolean"}]}]}`} {
+		handles = append(handles, mkHandle("schema", []byte(st), []interface{}{5.0, true, "s", []interface{}{1.0}, map[string]interface{}{"a": 1.0}, 1.5}))
+	}
+	// a member matching several patterns and failing several of them: every failure is reported, whatever the visiting order
+	for _, st := range []string{`{"patternProperties":{"^a":{"type":"integer"},"a$":{"maxLength":0},"a":{"enum":[1]}}}`, `{"properties":{"k":{"type":"integer"}},"patternProperties":{"^x":{"minimum":10},"a$":{"multipleOf":7},"xa":{"type":"string"}}}`} {
+		vals := []interface{}{map[string]interface{}{"a": "xx"}, map[string]interface{}{"xa": 3.0, "k": "s"}, map[string]interface{}{"a": 1.0}, map[string]interface{}{"xa": 14.0}, map[string]interface{}{"aa": "y", "xa": 1.0}, map[string]interface{}{}}
+		handles = append(handles, mkHandle("schema", []byte(st), vals), mkHandle("schema", []byte(st), vals))
+	}
 	// keywords whose members are visited in map order: every repetition must give the same answer
 	for _, st := range []string{
 		`{"dependencies":{"marker":[],"a":["c"],"other":[]}}`,
